@@ -122,6 +122,7 @@ func runRunner(dir, cacheDir string, analyzers []*analysis.Analyzer, env []strin
 	return res, nil
 }
 
+var sharedCache string
 var fileIdx = map[string]int{}
 var lineDirRe = regexp.MustCompile(`(?m)(^|\n)\s*(//line |/\*line )`)
 
@@ -429,6 +430,9 @@ func analyzeModule(work string, m modSpec, rnd *hx.Rand) {
 	// one cache per harness run (fresh, under the scratch directory): the standard library is analysed once,
 	// and nothing survives into the next run (a changed analyzer must never see stale results)
 	cacheDir := filepath.Join(work, "cache")
+	if sharedCache != "" {
+		cacheDir = sharedCache
+	}
 	t0 := time.Now()
 	defer func() { fmt.Fprintf(os.Stderr, "hc16: %s/%s %.1fs\n", m.variant, m.label, time.Since(t0).Seconds()) }()
 	res, err := runRunner(m.dir, cacheDir, allAnalyzers(), m.env, m.patterns...)
